@@ -282,9 +282,13 @@ pub trait Storage { spec fn view(&self) -> Raw; }
 pub trait Api {
     fn addr_validate(&self, human: &str) -> (r: StdResult<Addr>) ensures r is Ok ==> r->Ok_0@ == human@;
 }
-pub struct QuerierWrapper<'a> { pub q: &'a u8 }
-impl<'a> Clone for QuerierWrapper<'a> { fn clone(&self) -> (r: Self) ensures r == *self { QuerierWrapper { q: self.q } } }
-impl<'a> Copy for QuerierWrapper<'a> {}
+pub trait CustomQuery {}
+impl CustomQuery for Empty {}
+/// the querier: `world()` is the state of all other contracts / modules at the time of this call (A5)
+pub struct QuerierWrapper<'a, C = Empty> { pub q: &'a u8, pub _c: PhantomData<C> }
+impl<'a, C> QuerierWrapper<'a, C> { pub uninterp spec fn world(&self) -> int; }
+impl<'a, C> Clone for QuerierWrapper<'a, C> { fn clone(&self) -> (r: Self) ensures r == *self { QuerierWrapper { q: self.q, _c: PhantomData } } }
+impl<'a, C> Copy for QuerierWrapper<'a, C> {}
 pub struct DepsMut<'a> { pub storage: &'a mut dyn Storage, pub api: &'a dyn Api, pub querier: QuerierWrapper<'a> }
 pub struct Deps<'a> { pub storage: &'a dyn Storage, pub api: &'a dyn Api, pub querier: QuerierWrapper<'a> }
 impl<'a> Clone for Deps<'a> { fn clone(&self) -> (r: Self) ensures r == *self { Deps { storage: self.storage, api: self.api, querier: self.querier } } }
